@@ -31,7 +31,7 @@ def envs(snap, shard_args_list):
 def floors(m, tier):
     u, k = BUDGET[tier]
     c = m.counters
-    return {"get() calls compared": (c.get("get_calls", 0), u * k),
+    return {"get() calls compared": (c.get("get_calls", 0), u * k * 6 // 10),
             "records compared": (c.get("records", 0), u * k * 2),
             "records with stored data": (c.get("records_with_data", 0), u * k // 4),
             "falsy stored values read": (c.get("falsy_values", 0), u),
